@@ -294,7 +294,7 @@ func c05RunFaultCase(t *testing.T, scn *c05Scn, plan *c05h.Plan, budget int, rec
 	for i, st := range scn.Steps {
 		w.h.Step, w.h.Op = i+1, st.Op
 		rec := rt.M{"op": st.Op, "ctr": st.Ctr, "n": st.N, "ret": "ok", "fired": 0, "dP": 0, "dE": 0, "pe": 0, "others": false, "files": false,
-			"parked": w.f.err != nil, "cur": w.f.current.Raw() != nil, "today": w.curIsToday(), "steps": 0, "where": "", "text": "", "rv": -1, "rerr": false, "pv": -1}
+			"parked": w.f.err != nil, "cur": w.f.current.Raw() != nil, "today": w.curIsToday(), "dbl": false, "steps": 0, "where": "", "text": "", "rv": -1, "rerr": false, "pv": -1}
 		if dead {
 			rec["ret"] = "skipped"
 			steps = append(steps, rec)
@@ -382,6 +382,7 @@ func c05RunFaultCase(t *testing.T, scn *c05Scn, plan *c05h.Plan, budget int, rec
 			}
 		}
 		rec["ret"], rec["steps"], rec["where"], rec["text"] = ret, n, where, text
+		rec["dbl"] = w.badUnmap > 0
 		rec["fired"] = len(w.h.Fired) - nf
 		rec["others"], rec["files"] = others, filesChanged
 		rec["parked"], rec["cur"], rec["today"] = w.f.err != nil, w.f.current.Raw() != nil, w.curIsToday()
@@ -401,9 +402,6 @@ func c05RunFaultCase(t *testing.T, scn *c05Scn, plan *c05h.Plan, budget int, rec
 			dead = true // a hung call may hold file.mu; a panicking one left unknown state
 		}
 		steps = append(steps, rec)
-	}
-	if w.badUnmap > 0 {
-		steps[len(steps)-1]["doubleUnmap"] = w.badUnmap
 	}
 	out := rt.M{"kind": "case", "id": id, "scn": scn.Name, "steps": steps, "fired": w.h.Fired, "ncalls": w.h.NCall}
 	if record {
@@ -853,7 +851,7 @@ func c05RunCorrupt(t *testing.T, b *c05Base, c *c05CCase, budget int) {
 	}()
 	before := c05Reachable(b, orig)
 	out := rt.M{"kind": "case", "id": c.ID, "open": "", "ret": "ok", "steps": 0, "where": "", "text": "", "mode": "", "dP": 0, "dE": 0,
-		"others": false, "untouched": false, "lost": "", "size": len(orig), "limClass": c05LimitClass(b, orig), "damage": desc, "chain": "-"}
+		"others": false, "untouched": false, "dbl": false, "lost": "", "size": len(orig), "limClass": c05LimitClass(b, orig), "damage": desc, "chain": "-"}
 	ret, n, where, text := c05h.Run("open", budget, func() { w.f.rotate1() })
 	out["steps"] = n
 	if ret != "ok" {
@@ -894,6 +892,7 @@ func c05RunCorrupt(t *testing.T, b *c05Base, c *c05CCase, budget int) {
 		return
 	}
 	out["untouched"] = bytes.Equal(after, orig)
+	out["dbl"] = w.badUnmap > 0
 	reach := c05Reachable(b, after)
 	var lost []string
 	for k, v := range before {
@@ -917,6 +916,8 @@ func c05RunCorrupt(t *testing.T, b *c05Base, c *c05CCase, budget int) {
 		out["mode"] = "persist"
 	case dP == 0 && dE == amount:
 		out["mode"] = "memory"
+	case dP == 0 && dE == 0:
+		out["mode"] = "dropped"
 	default:
 		out["mode"] = "other"
 	}
